@@ -14,9 +14,22 @@
    Joins iterate HashMaps: rows of a collection whose lineage contains a join are compared as
    multisets, everything else as sequences. *)
 From Coq Require Import List ZArith Bool String Arith.
-From IB Require Import Util.J Pipeline.Graph Pipeline.History.
+From IB Require Import Util.J Pipeline.Graph Pipeline.History Pipeline.Source.
 Import ListNotations.
 Open Scope Z_scope.
+
+(* Round 4.  The input may carry a fourth component env = [pipes, files]:
+     pipes[t] = the Pipeline thread t works on.  Pipelines are independent state machines; the
+       history is replayed once per pipeline on the threads of that pipeline (programs of the
+       other threads masked, schedule and observed turns filtered);
+     files    = the streamed files of the case.
+   New source calls ("custom": a user-written VecOps through from_custom_source; "file": a
+   JSONL / CSV / Parquet source, through read_*_streaming or through from_custom_source with an
+   adapter object SHARED between sources) are source steps of the state machine whose rows are
+   what the source model Pipeline/Source.v READS (seq_read of the modelled adapter over the
+   modelled shards) - for `agree` - and, independently, the rows read off the file text - for
+   `prop`.  Collect modes 1000..1006 are the other public collect entry points; the sorted ones
+   are compared as multisets.  "digest" collects report (n, sum h, sum (i+1) h) of the rows. *)
 
 (* ---------- concrete element type and function tables (mirror of c08.rs Val) ---------- *)
 Inductive val : Type := VI (z : Z) | VP (a b : val) | VN | VS (a : val).
@@ -168,6 +181,22 @@ Fixpoint perm_eqb (a b : list val) : bool :=
   | x :: a' => match remove_one x b with Some b' => perm_eqb a' b' | None => false end
   end.
 
+(* digests of big results (mirror of c08.rs val_hash / row_hash / rows_digest) *)
+(* no division anywhere: Z.modulo costs ~30 us per call under vm_compute, Z.land ~1 us *)
+Fixpoint val_hash (v : val) : Z :=
+  match v with
+  | VI z => z
+  | VP a b => val_hash a * 31 + val_hash b * 17 + 1
+  | VN => 7
+  | VS a => val_hash a * 13 + 3
+  end.
+Definition row_hash (r : val) : Z := Z.land (row_key r * 1000003 + val_hash (row_val r)) 1048575.
+Definition digest (l : list val) : Z * Z * Z :=
+  fold_left (fun acc r => let '(i, s1, s2) := acc in
+                          let h := row_hash r in
+                          (i + 1, s1 + h, s2 + (i + 1) * h))
+            l (0, 0, 0).
+
 Fixpoint has_join (x : lineage) : bool :=     (* "contains a HashMap-ordered step" *)
   match x with
   | LSrc _ => false
@@ -206,11 +235,119 @@ Definition dec_ref (j : J) : option ref :=
   | _ => None
   end.
 
+(* 0, 1, .., n-1 (counting in Z: Z.of_nat on every element would be quadratic) *)
+Fixpoint zseq_from (fuel : nat) (start : Z) : list Z :=
+  match fuel with O => [] | S f => start :: zseq_from f (start + 1) end.
+Definition zseq (n : Z) : list Z := zseq_from (Z.to_nat n) 0.
+
+(* rows of a source: listed, or ["gen", n, base, kmod]: row i = (i mod kmod, base + i) *)
+Definition dec_rowspec (j : J) : option (list val) :=
+  match j with
+  | JL [JS tag; JI n; JI base; JI kmod] =>
+      if String.eqb tag "gen" && (0 <=? n) && (0 <? kmod)
+      then Some (map (fun i => mk_row (if kmod =? 1 then 0 else i mod kmod) (VI (base + i))) (zseq n))
+      else None
+  | _ => dec_rows j
+  end.
+
+(* lines of a file: [row | null, ..] or ["gen", n, base, kmod, blank] *)
+Definition dec_line (j : J) : option (option val) :=
+  match j with
+  | JN => Some None
+  | _ => option_map Some (dec_row j)
+  end.
+Definition dec_lines (j : J) : option (list (option val)) :=
+  match j with
+  | JL [JS tag; JI n; JI base; JI kmod; JI blank] =>
+      if String.eqb tag "gen" && (0 <=? n) && (0 <? kmod) && (0 <=? blank)
+      then Some (map (fun i => if (0 <? blank) && (i mod blank =? blank - 1) then None
+                               else Some (mk_row (if kmod =? 1 then 0 else i mod kmod) (VI (base + i))))
+                     (zseq n))
+      else None
+  | JL l => omap dec_line l
+  | _ => None
+  end.
+
+Record file : Type := mk_file { f_fmt : Z; f_p : Z; f_lines : list (option val) }.
+Definition no_blank (ls : list (option val)) : bool :=
+  forallb (fun o => match o with Some _ => true | None => false end) ls.
+Definition dec_file (j : J) : option file :=
+  match j with
+  | JL [JI fmt; JI p; ls] =>
+      match dec_lines ls with
+      | Some lines =>
+          if ((fmt =? 0) && (p =? 0))
+             || ((fmt =? 1) && (0 <=? p) && (p <=? 1) && no_blank lines)
+             || ((fmt =? 2) && (0 <=? p) && no_blank lines
+                 && negb (match lines with [] => true | _ => false end))
+          then Some (mk_file fmt p lines) else None
+      | None => None
+      end
+  | _ => None
+  end.
+Definition dec_files (j : J) : option (list file) :=
+  match j with JL l => omap dec_file l | _ => None end.
+
+(* the reference rows of a file: its non-blank lines, in order *)
+Definition ref_file_rows (f : file) : list val :=
+  flat_map (fun o => match o with Some v => [v] | None => [] end) (f_lines f).
+
+(* the row groups the harness's writers produce: max row-group size p (p = 0: ironbeam's own
+   writer, one batch = one group) *)
+Definition groups_of (p : Z) (rows : list val) : list (list val) :=
+  if p =? 0 then [rows] else chunks (Z.to_nat p) rows.
+
+(* the MODEL's rows of a streamed source over file f with shard size s: seq_read of the
+   modelled adapter over the modelled shards (Pipeline/Source.v) *)
+Definition model_file_source (f : file) (s : Z) : Source.source val :=
+  let per := Z.to_N s in
+  if f_fmt f =? 0 then jsonl_source (f_lines f) per
+  else if f_fmt f =? 1 then csv_source (ref_file_rows f) per
+  else parquet_source (groups_of (f_p f) (ref_file_rows f)) per.
+Definition read_ok (r : rd (list val)) : option (list val) :=
+  match r with ROk l => Some l | _ => None end.
+
 Inductive hcall : Type :=
-| HSrc (d : list val)
+| HSrc (dm dr : list val)                  (* rows by the model / rows by the reference *)
+| HSrcW (dm dr : list val)                 (* a source followed by a re-typing map (Parquet) *)
 | HDerive (fs : list fname) (r : ref)      (* one builder call = the nodes it inserts, in order *)
 | HJoin (g : gname) (l r : ref)
-| HCollect (mode : Z) (r : ref).
+| HCollect (mode : Z) (r : ref) (dg : bool).
+
+Definition dec_pages (j : J) : option (list (list val)) :=
+  match j with JL l => omap dec_rows l | _ => None end.
+Definition dec_custom (lm sp : Z) (pages : J) : option hcall :=
+  match dec_pages pages with
+  | Some pg =>
+      let sm := if sp =? 0 then Some SplitNone else if sp =? 1 then Some SplitPages
+                else if sp =? 2 then Some SplitChunks else None in
+      match sm with
+      | Some sm =>
+          if (lm =? 0) || (lm =? 1) then
+            match read_ok (seq_read (pages_source (lm =? 1) sm pg)) with
+            | Some dm => Some (HSrc dm (List.concat pg))
+            | None => None
+            end
+          else None
+      | None => None
+      end
+  | None => None
+  end.
+Definition dec_filecall (files : list file) (a f s : Z) : option hcall :=
+  if (0 <=? a) && (0 <=? f) && (0 <=? s) then
+    match nth_error files (Z.to_nat f) with
+    | Some fl =>
+        match read_ok (seq_read (model_file_source fl s)) with
+        | Some dm => Some (if f_fmt fl =? 2 then HSrcW dm (ref_file_rows fl)
+                           else HSrc dm (ref_file_rows fl))
+        | None => None
+        end
+    | None => None
+    end
+  else None.
+Definition mode_ok (m : Z) : bool := ((0 <=? m) && (m <=? 999)) || ((1000 <=? m) && (m <=? 1006)).
+(* collect_seq_sorted / collect_par_sorted / collect_par_sorted_by_key *)
+Definition mode_sorted (m : Z) : bool := (1002 <=? m) && (m <=? 1004).
 
 Definition dec_gname (k : Z) : option gname :=
   if k =? 0 then Some JInner else if k =? 1 then Some JLeft
@@ -240,17 +377,23 @@ Definition dop_fns (tag : string) (a b : Z) : option (list fname) :=
        then (if 0 <? a then Some [FWrap; FKWin a; FGbkSum; FWrap] else None)
   else None.
 
-Definition dec_call (j : J) : option hcall :=
+Definition dec_call (files : list file) (j : J) : option hcall :=
   match j with
   | JL [JS tag; d] =>
-      if String.eqb tag "src" then option_map HSrc (dec_rows d) else None
+      if String.eqb tag "src" then option_map (fun x => HSrc x x) (dec_rowspec d) else None
   | JL [JS tag; JI c; r] =>
       if String.eqb tag "map" then option_map (HDerive [FAdd c]) (dec_ref r)
       else if String.eqb tag "collect" then
-             if 0 <=? c then option_map (HCollect c) (dec_ref r) else None
+             if mode_ok c then option_map (fun x => HCollect c x false) (dec_ref r) else None
+      else if String.eqb tag "digest" then
+             if mode_ok c then option_map (fun x => HCollect c x true) (dec_ref r) else None
       else None
   | JL [JS tag; JI a; b; c] =>
-      if String.eqb tag "join" then
+      if String.eqb tag "custom" then
+        match b with JI sp => dec_custom a sp c | _ => None end
+      else if String.eqb tag "file" then
+        match b, c with JI f, JI sh => dec_filecall files a f sh | _, _ => None end
+      else if String.eqb tag "join" then
         match dec_gname a, dec_ref b, dec_ref c with
         | Some g, Some l, Some r => Some (HJoin g l r)
         | _, _, _ => None
@@ -265,10 +408,10 @@ Definition dec_call (j : J) : option hcall :=
         end
   | _ => None
   end.
-Definition dec_program (j : J) : option (list hcall) :=
-  match j with JL l => omap dec_call l | _ => None end.
-Definition dec_programs (j : J) : option (list (list hcall)) :=
-  match j with JL l => omap dec_program l | _ => None end.
+Definition dec_program (files : list file) (j : J) : option (list hcall) :=
+  match j with JL l => omap (dec_call files) l | _ => None end.
+Definition dec_programs (files : list file) (j : J) : option (list (list hcall)) :=
+  match j with JL l => omap (dec_program files) l | _ => None end.
 Definition dec_nat (j : J) : option nat :=
   match j with JI z => if 0 <=? z then Some (Z.to_nat z) else None | _ => None end.
 Definition dec_nats (j : J) : option (list nat) :=
@@ -276,11 +419,13 @@ Definition dec_nats (j : J) : option (list nat) :=
 
 Definition hsteps (c : hcall) : nat :=
   match c with
-  | HSrc _ => 1 | HDerive fs _ => 2 * List.length fs | HJoin _ _ _ => 7 | HCollect _ _ => 3
+  | HSrc _ _ => 1 | HSrcW _ _ => 3 | HDerive fs _ => 2 * List.length fs | HJoin _ _ _ => 7
+  | HCollect _ _ _ => 3
   end%nat.
 Definition hinserts (c : hcall) : nat :=
   match c with
-  | HSrc _ => 1 | HDerive fs _ => List.length fs | HJoin _ _ _ => 3 | HCollect _ _ => 0
+  | HSrc _ _ => 1 | HSrcW _ _ => 2 | HDerive fs _ => List.length fs | HJoin _ _ _ => 3
+  | HCollect _ _ _ => 0
   end%nat.
 
 (* ---------- lineage of a reference, from the program text alone ---------- *)
@@ -291,7 +436,7 @@ Fixpoint producer (p : list hcall) (k : nat) : option (hcall * bool) :=
   | [] => None
   | c :: rest =>
       match c with
-      | HCollect _ _ => producer rest k
+      | HCollect _ _ _ => producer rest k
       | HJoin _ _ _ =>
           match k with
           | O => Some (c, false)
@@ -307,7 +452,8 @@ Fixpoint lin_of (fuel : nat) (ps : list (list hcall)) (r : ref) : option lineage
   | O => None
   | S fuel' =>
       match producer (nth (fst r) ps []) (snd r) with
-      | Some (HSrc d, _) => Some (LSrc d)
+      | Some (HSrc _ dr, _) => Some (LSrc dr)
+      | Some (HSrcW _ dr, _) => Some (LDerive FWrap (LSrc dr))
       | Some (HDerive fs p, _) =>
           option_map (fun x => fold_left (fun acc f => LDerive f acc) fs x) (lin_of fuel' ps p)
       | Some (HJoin g l r', wrapped) =>
@@ -325,6 +471,10 @@ Definition total_calls (ps : list (list hcall)) : nat := fold_right (fun p n => 
 (* ---------- comparing an observed collect outcome ---------- *)
 Definition same_outcome (perm : bool) (m : outcome (list val)) (o : J) : bool :=
   match m, o with
+  | Ok l, JL [JS tag; JI n; JI s1; JI s2] =>
+      String.eqb tag "okd" &&
+      (let '(n', s1', s2') := digest l in
+       (n =? n') && (s1 =? s1') && (perm || (s2 =? s2')))
   | Ok l, JL [JS tag; rows] =>
       String.eqb tag "ok" &&
       match dec_rows rows with
@@ -360,13 +510,14 @@ Fixpoint expand (ci : nat) (p : list hcall) : list (nat * nat * mcall * bool) :=
   | [] => []
   | c :: rest =>
       (match c with
-       | HSrc d => [(ci, O, MSrc d, true)]
+       | HSrc dm _ => [(ci, O, MSrc dm, true)]
+       | HSrcW dm _ => [(ci, O, MSrc dm, false); (ci, 1%nat, MChain FWrap, true)]
        | HDerive [] _ => []
        | HDerive (f :: fs) r =>
            (ci, O, MDerive f r, match fs with [] => true | _ => false end)
              :: chain_calls ci 2%nat fs
        | HJoin g l r => [(ci, O, MJoin g l r, true); (ci, 5%nat, MChain FWrap, true)]
-       | HCollect _ r => [(ci, O, MCollect r, true)]
+       | HCollect _ r _ => [(ci, O, MCollect r, true)]
        end) ++ expand (S ci) rest
   end.
 
@@ -491,12 +642,12 @@ Definition items_at (items : list (nat * nat * item)) (t ci : nat) : list item :
 Definition result_agrees (locks : bool) (c : hcall) (its : list item) (o : J) : bool :=
   let nl (n : Z) := negb locks || (n =? Z.of_nat (hsteps c)) in
   match c, o, its with
-  | HCollect _ _, JL [JS tag; out; JI n], [IC x plan] =>
+  | HCollect m _ _, JL [JS tag; out; JI n], [IC x plan] =>
       String.eqb tag "c" && nl n &&
-      same_outcome (has_join (h_lin x)) (collect_value interp_f interp_g plan) out
+      same_outcome (mode_sorted m || has_join (h_lin x)) (collect_value interp_f interp_g plan) out
   | HJoin _ _ _, JL [JS tag; JI raw; JI id; JI n], [IH a; IH b] =>
       String.eqb tag "hh" && nl n && (raw =? Z.of_nat a) && (id =? Z.of_nat b)
-  | HCollect _ _, _, _ => false
+  | HCollect _ _ _, _, _ => false
   | HJoin _ _ _, _, _ => false
   | _, JL [JS tag; JI id; JI n], [IH a] =>
       String.eqb tag "h" && nl n && (id =? Z.of_nat a)
@@ -520,13 +671,14 @@ Definition result_prop (ps : list (list hcall)) (c : hcall) (o : J) : bool :=
       (* the harness could not issue the call (a referenced handle did not exist yet because
          the real lock sequence deviated from the model's): a disagreement, reported through
          `agree`, but no observation about the property *)
-  | HCollect _ r, JL [JS tag; out; JI _] =>
+  | HCollect m r _, JL [JS tag; out; JI _] =>
       String.eqb tag "c" &&
       match lin_of (S (total_calls ps)) ps r with
-      | Some lin => same_outcome (has_join lin) (value_of_lineage interp_f interp_g lin) out
+      | Some lin => same_outcome (mode_sorted m || has_join lin)
+                                 (value_of_lineage interp_f interp_g lin) out
       | None => false
       end
-  | HCollect _ _, _ => false
+  | HCollect _ _ _, _ => false
   | _, JL (JS tag :: _) => String.eqb tag "h" || String.eqb tag "hh"
   | _, _ => false
   end.
@@ -544,7 +696,7 @@ Fixpoint nodup_z (l : list Z) : bool :=
    join) never changes the closure-call counter; only turns of collect calls may *)
 Definition is_collect_turn (ps : list (list hcall)) (t ci : nat) : bool :=
   match nth_error (nth t ps []) ci with
-  | Some (HCollect _ _) => true
+  | Some (HCollect _ _ _) => true
   | _ => false
   end.
 Fixpoint counter_ok (ps : list (list hcall)) (prev : Z) (o : list (nat * nat * nat * Z)) : bool :=
@@ -559,12 +711,45 @@ Definition shapes_ok (ps : list (list hcall)) (res : list J) : bool :=
   forallb (fun pr => is_jl (snd pr) && Nat.eqb (List.length (fst pr)) (List.length (jl (snd pr))))
           (combine ps res).
 
-Definition prop_results (ps : list (list hcall)) (res : list J) : bool :=
+(* every collect returned the lineage value (ids: ids_distinct below) *)
+Definition prop_values (ps : list (list hcall)) (res : list J) : bool :=
   shapes_ok ps res &&
   forallb (fun pr => forallb (fun co => result_prop ps (fst co) (snd co))
                              (combine (fst pr) (jl (snd pr))))
-          (combine ps res) &&
+          (combine ps res).
+Definition ids_distinct (res : list J) : bool :=
   nodup_z (flat_map (fun r => flat_map ids_of_result (jl r)) res).
+Definition prop_results (ps : list (list hcall)) (res : list J) : bool :=
+  prop_values ps res && ids_distinct res.
+
+(* ---------- several pipelines: projection on the threads of one pipeline ---------- *)
+Definition pipe_of (pipes : list nat) (t : nat) : nat := nth t pipes O.
+Definition mask {A} (pipes : list nat) (q : nat) (dflt : A) (l : list A) : list A :=
+  map (fun tp => if Nat.eqb (pipe_of pipes (fst tp)) q then snd tp else dflt)
+      (combine (seq 0 (List.length l)) l).
+Definition npipes (pipes : list nat) : nat := S (fold_right Nat.max O pipes).
+(* a call may only reference handles of threads of its own pipeline *)
+Definition call_refs (c : hcall) : list ref :=
+  match c with
+  | HDerive _ r => [r] | HJoin _ l r => [l; r] | HCollect _ r _ => [r] | _ => []
+  end.
+Definition refs_local (pipes : list nat) (ps : list (list hcall)) : bool :=
+  forallb (fun tp => forallb (fun c => forallb (fun r => Nat.eqb (pipe_of pipes (fst r))
+                                                               (pipe_of pipes (fst tp)))
+                                              (call_refs c)) (snd tp))
+          (combine (seq 0 (List.length ps)) ps).
+
+Definition dec_env (n : Z) (j : J) : option (list nat * list file) :=
+  match j with
+  | JL [jp; jf] =>
+      match dec_nats jp, dec_files jf with
+      | Some pipes, Some files =>
+          if (Z.of_nat (List.length pipes) =? n) && forallb (fun q => Nat.leb q 3) pipes
+          then Some (pipes, files) else None
+      | _, _ => None
+      end
+  | _ => None
+  end.
 
 Definition agree_results (locks : bool) (ps : list (list hcall))
            (items : list (nat * nat * item)) (res : list J) : bool :=
@@ -573,32 +758,52 @@ Definition agree_results (locks : bool) (ps : list (list hcall))
              zip_all (fun ci c o => result_agrees locks c (items_at items t ci) o) O p (jl r))
           O ps res.
 
+Definition check_hist_env (n : Z) (jps jsched : J) (pipes : list nat) (files : list file)
+           (output : J) : verdict :=
+  match dec_programs files jps, dec_nats jsched with
+  | Some ps, Some sched =>
+      if negb (Z.of_nat (List.length ps) =? n) || negb (refs_local pipes ps) then malformed else
+      let qs := seq 0 (npipes pipes) in
+      let in_q (q t : nat) := Nat.eqb (pipe_of pipes t) q in
+      (* one replay per pipeline, on the threads of that pipeline *)
+      match omap (fun q => replay (mask pipes q [] ps) (filter (in_q q) sched)) qs with
+      | None => malformed             (* the harness only runs valid histories *)
+      | Some ds =>
+          match output with
+          | JL [JS tag; JL jturns; JL res] =>
+              if negb (String.eqb tag "ok") then ok_verdict false false else
+              match omap dec_turn jturns with
+              | Some oturns =>
+                  let agree :=
+                    forallb (fun qd =>
+                               let '(q, d) := qd in
+                               turns_eqb (rev (d_turns d))
+                                         (filter (fun x => in_q q (fst (fst (fst x)))) oturns) &&
+                               agree_results true (mask pipes q [] ps) (rev (d_items d))
+                                             (mask pipes q (JL []) res))
+                            (combine qs ds) in
+                  let prop :=
+                    prop_values ps res &&
+                    forallb (fun q => ids_distinct (mask pipes q (JL []) res)) qs &&
+                    counter_ok ps 0 oturns in
+                  ok_verdict agree prop
+              | None => malformed
+              end
+          | JL [JS _] => ok_verdict false false     (* hang / panic *)
+          | _ => malformed
+          end
+      end
+  | _, _ => malformed
+  end.
+
 Definition check_hist (input output : J) : verdict :=
   match input with
   | JL [JI n; jps; jsched] =>
-      match dec_programs jps, dec_nats jsched with
-      | Some ps, Some sched =>
-          if negb (Z.of_nat (List.length ps) =? n) then malformed else
-          match replay ps sched with
-          | None => malformed             (* the harness only runs valid histories *)
-          | Some d =>
-              match output with
-              | JL [JS tag; JL jturns; JL res] =>
-                  if negb (String.eqb tag "ok") then ok_verdict false false else
-                  match omap dec_turn jturns with
-                  | Some oturns =>
-                      let agree :=
-                        turns_eqb (rev (d_turns d)) oturns &&
-                        agree_results true ps (rev (d_items d)) res in
-                      let prop := prop_results ps res && counter_ok ps 0 oturns in
-                      ok_verdict agree prop
-                  | None => malformed
-                  end
-              | JL [JS _] => ok_verdict false false     (* hang / panic *)
-              | _ => malformed
-              end
-          end
-      | _, _ => malformed
+      check_hist_env n jps jsched (repeat O (Z.to_nat n)) [] output
+  | JL [JI n; jps; jsched; jenv] =>
+      match dec_env n jenv with
+      | Some (pipes, files) => check_hist_env n jps jsched pipes files output
+      | None => malformed
       end
   | _ => malformed
   end.
@@ -606,23 +811,30 @@ Definition check_hist (input output : J) : verdict :=
 (* free-running threads: the interleaving is unknown, the model allows exactly the outcomes
    in which ids are a partial injection into 0..#inserts-1 and every collect returns the
    lineage value (c08_lineage_only: the same for every interleaving) *)
+Definition check_stress_env (n : Z) (jps : J) (files : list file) (output : J) : verdict :=
+  match dec_programs files jps with
+  | Some ps =>
+      if negb (Z.of_nat (List.length ps) =? n) then malformed else
+      match output with
+      | JL [JS tag; JL res; JI _] =>
+          if negb (String.eqb tag "ok") then ok_verdict false false else
+          let ids := flat_map (fun r => flat_map ids_of_result (jl r)) res in
+          let ninserts := fold_right (fun p a => (fold_right (fun c b => (hinserts c + b)%nat) O p + a)%nat) O ps in
+          let prop := prop_results ps res in
+          let agree := prop && forallb (fun i => (0 <=? i) && (i <? Z.of_nat ninserts)) ids in
+          ok_verdict agree prop
+      | JL [JS _] => ok_verdict false false
+      | _ => malformed
+      end
+  | None => malformed
+  end.
 Definition check_stress (input output : J) : verdict :=
   match input with
-  | JL [JI n; jps] =>
-      match dec_programs jps with
-      | Some ps =>
-          if negb (Z.of_nat (List.length ps) =? n) then malformed else
-          match output with
-          | JL [JS tag; JL res; JI _] =>
-              if negb (String.eqb tag "ok") then ok_verdict false false else
-              let ids := flat_map (fun r => flat_map ids_of_result (jl r)) res in
-              let ninserts := fold_right (fun p a => (fold_right (fun c b => (hinserts c + b)%nat) O p + a)%nat) O ps in
-              let prop := prop_results ps res in
-              let agree := prop && forallb (fun i => (0 <=? i) && (i <? Z.of_nat ninserts)) ids in
-              ok_verdict agree prop
-          | JL [JS _] => ok_verdict false false
-          | _ => malformed
-          end
+  | JL [JI n; jps] => check_stress_env n jps [] output
+  | JL [JI n; jps; jenv] =>
+      match dec_env n jenv with
+      | Some (pipes, files) =>
+          if forallb (Nat.eqb O) pipes then check_stress_env n jps files output else malformed
       | None => malformed
       end
   | _ => malformed
